@@ -23,9 +23,13 @@ package main
 //              per grid an Euler circuit through ALL ordered pairs of the grid's 60 calls
 //              (14 configurations × the grid's two sizes: 28 encodes, their 28 decodes, 4 decodes
 //              of truncated files), plus a random mixed walk with animations, header queries,
-//              truncated files and remuxing;
+//              truncated files and remuxing; per grid an Euler circuit through all ordered pairs of
+//              the serial-import configurations (hImportConfigs: RGB->YUV dithering and the image
+//              types generic wrapper / NRGBA64 / Paletted, each as a picture with alpha and its
+//              opaque twin) × the grid's two sizes;
 //   thorough — additionally de Bruijn walks through all ordered TRIPLES of 24 configurations
-//              (two size assignments) and 20 000 random histories of length ≤ 12.
+//              (two size assignments), all ordered triples of the serial-import calls per grid,
+//              and 20 000 random histories of length ≤ 12.
 // After every call all images / byte slices returned earlier in the walk window are re-hashed
 // (immutability).  A mismatch is shrunk by re-running candidate sub-histories in fresh child
 // processes (window doubling, then one-at-a-time removal) and reported with the literal call list.
@@ -76,7 +80,8 @@ type hcall struct {
 	Cls   int    `json:"cls,omitempty"`
 	Acls  int    `json:"acls,omitempty"`
 	ISeed uint64 `json:"iseed,omitempty"`
-	Opts  string `json:"opts,omitempty"` // encOpts() wire form
+	IType string `json:"itype,omitempty"` // enc: Go type of the image handed to Encode: "" = *image.NRGBA, "nrgba64", "paletted", "generic"
+	Opts  string `json:"opts,omitempty"`  // encOpts() wire form
 	Anim  *hAnim `json:"anim,omitempty"`
 	Src   *hcall `json:"src,omitempty"` // producer of the bytes to decode (its fresh reference output)
 	Cut   int    `json:"cut,omitempty"` // dec: per-mille of the image chunk's payload kept; 0 = intact
@@ -243,6 +248,35 @@ func histImage(c *hcall) *image.NRGBA {
 	return im
 }
 
+// histTyped: the picture of an enc call as the Go image type named by c.IType (same pixels; a
+// Paletted image uses the picture's first 256 distinct colours).  Types other than *image.NRGBA /
+// *image.RGBA take the lossy encoder's serial import path.
+var histTypedCache = map[string]image.Image{}
+
+func histTyped(c *hcall) image.Image {
+	src := histImage(c)
+	if c.IType == "" {
+		return src
+	}
+	k := fmt.Sprintf("%d|%d|%d|%d|%d|%s", c.W, c.H, c.Cls, c.Acls, c.ISeed, c.IType)
+	if im, ok := histTypedCache[k]; ok {
+		return im
+	}
+	var im image.Image
+	switch c.IType {
+	case "nrgba64":
+		im, _ = asTypeAt(nil, src, 4, image.Point{})
+	case "paletted":
+		im, _ = asTypeAt(nil, src, 3, image.Point{})
+	case "generic":
+		im = genericImage{src}
+	default:
+		return nil
+	}
+	histTypedCache[k] = im
+	return im
+}
+
 func animFrames(c *hcall) []*image.NRGBA {
 	base := GenImage(NewRNG(c.ISeed, 0), c.W, c.H, c.Cls, c.Acls)
 	frames := []*image.NRGBA{base}
@@ -277,7 +311,10 @@ func execCall(c *hcall, input []byte) *hres {
 			if err != nil {
 				return "bad-call"
 			}
-			img := histImage(c)
+			img := histTyped(c)
+			if img == nil {
+				return "bad-call"
+			}
 			var buf bytes.Buffer
 			if err := webp.Encode(&buf, img, o); err != nil {
 				return "err"
@@ -641,10 +678,11 @@ func suiteHistoryChild(rep *Report) error {
 // ---------- configurations ----------
 
 type hConfig struct {
-	tag  string
-	opts func() *webp.EncoderOptions
-	cls  int
-	acls int
+	tag   string
+	opts  func() *webp.EncoderOptions
+	cls   int
+	acls  int
+	itype string // "" = *image.NRGBA
 }
 
 func hOpt(f func(o *webp.EncoderOptions)) func() *webp.EncoderOptions {
@@ -653,33 +691,50 @@ func hOpt(f func(o *webp.EncoderOptions)) func() *webp.EncoderOptions {
 
 // the first 14 are the quick tier's; all 24 the thorough tier's
 var hConfigs = []hConfig{
-	{"ly-default", hOpt(func(o *webp.EncoderOptions) {}), ClsPhoto, AlphaNone},
-	{"ly-q50m0s1", hOpt(func(o *webp.EncoderOptions) { o.Quality, o.Method, o.Segments = 50, 0, 1 }), ClsNoise, AlphaNone},
-	{"ly-q90m6-alpha", hOpt(func(o *webp.EncoderOptions) { o.Quality, o.Method = 90, 6 }), ClsPhoto, AlphaGradient},
-	{"ly-q75m4p3-flat", hOpt(func(o *webp.EncoderOptions) { o.Partitions = 3 }), ClsFlat, AlphaNone},
+	{"ly-default", hOpt(func(o *webp.EncoderOptions) {}), ClsPhoto, AlphaNone, ""},
+	{"ly-q50m0s1", hOpt(func(o *webp.EncoderOptions) { o.Quality, o.Method, o.Segments = 50, 0, 1 }), ClsNoise, AlphaNone, ""},
+	{"ly-q90m6-alpha", hOpt(func(o *webp.EncoderOptions) { o.Quality, o.Method = 90, 6 }), ClsPhoto, AlphaGradient, ""},
+	{"ly-q75m4p3-flat", hOpt(func(o *webp.EncoderOptions) { o.Partitions = 3 }), ClsFlat, AlphaNone, ""},
 	{"ly-q95m2-sns100-f0", hOpt(func(o *webp.EncoderOptions) {
 		o.Quality, o.Method, o.SNSStrength, o.FilterStrength, o.FilterType = 95, 2, 100, 0, 0
-	}), ClsPhoto, AlphaNone},
-	{"ly-q50m4s2-pass3-dither", hOpt(func(o *webp.EncoderOptions) { o.Quality, o.Segments, o.Pass, o.Preprocessing = 50, 2, 3, 3 }), ClsGradient, AlphaNone},
-	{"ly-q75m4-alphaq50", hOpt(func(o *webp.EncoderOptions) { o.AlphaQuality, o.AlphaFiltering = 50, 2 }), ClsPhoto, AlphaBinary},
-	{"ll-q75m4", hOpt(func(o *webp.EncoderOptions) { o.Lossless = true }), ClsPhoto, AlphaNone},
-	{"ll-q90m0-alpha", hOpt(func(o *webp.EncoderOptions) { o.Lossless, o.Quality, o.Method = true, 90, 0 }), ClsPhoto, AlphaGradient},
-	{"ll-q100m6-pal16", hOpt(func(o *webp.EncoderOptions) { o.Lossless, o.Quality, o.Method = true, 100, 6 }), ClsPal16, AlphaBinary},
-	{"ll-q50m2-noise", hOpt(func(o *webp.EncoderOptions) { o.Lossless, o.Quality, o.Method = true, 50, 2 }), ClsNoise, AlphaNone},
-	{"ll-q95m4", hOpt(func(o *webp.EncoderOptions) { o.Lossless, o.Quality = true, 95 }), ClsPhoto, AlphaNone},
-	{"ly-q75m4-sharp-p1", hOpt(func(o *webp.EncoderOptions) { o.UseSharpYUV, o.Partitions = true, 1 }), ClsPhoto, AlphaNone},
-	{"ll-q90m4-exact-few", hOpt(func(o *webp.EncoderOptions) { o.Lossless, o.Quality, o.Exact = true, 90, true }), ClsGradient, AlphaFewLevels},
+	}), ClsPhoto, AlphaNone, ""},
+	{"ly-q50m4s2-pass3-dither", hOpt(func(o *webp.EncoderOptions) { o.Quality, o.Segments, o.Pass, o.Preprocessing = 50, 2, 3, 3 }), ClsGradient, AlphaNone, ""},
+	{"ly-q75m4-alphaq50", hOpt(func(o *webp.EncoderOptions) { o.AlphaQuality, o.AlphaFiltering = 50, 2 }), ClsPhoto, AlphaBinary, ""},
+	{"ll-q75m4", hOpt(func(o *webp.EncoderOptions) { o.Lossless = true }), ClsPhoto, AlphaNone, ""},
+	{"ll-q90m0-alpha", hOpt(func(o *webp.EncoderOptions) { o.Lossless, o.Quality, o.Method = true, 90, 0 }), ClsPhoto, AlphaGradient, ""},
+	{"ll-q100m6-pal16", hOpt(func(o *webp.EncoderOptions) { o.Lossless, o.Quality, o.Method = true, 100, 6 }), ClsPal16, AlphaBinary, ""},
+	{"ll-q50m2-noise", hOpt(func(o *webp.EncoderOptions) { o.Lossless, o.Quality, o.Method = true, 50, 2 }), ClsNoise, AlphaNone, ""},
+	{"ll-q95m4", hOpt(func(o *webp.EncoderOptions) { o.Lossless, o.Quality = true, 95 }), ClsPhoto, AlphaNone, ""},
+	{"ly-q75m4-sharp-p1", hOpt(func(o *webp.EncoderOptions) { o.UseSharpYUV, o.Partitions = true, 1 }), ClsPhoto, AlphaNone, ""},
+	{"ll-q90m4-exact-few", hOpt(func(o *webp.EncoderOptions) { o.Lossless, o.Quality, o.Exact = true, 90, true }), ClsGradient, AlphaFewLevels, ""},
 	// thorough only
-	{"ly-q100m6", hOpt(func(o *webp.EncoderOptions) { o.Quality, o.Method = 100, 6 }), ClsNoise, AlphaNone},
-	{"ly-q75m3-s3-sharp7", hOpt(func(o *webp.EncoderOptions) { o.Method, o.Segments, o.FilterSharpness = 3, 3, 7 }), ClsPhoto, AlphaNone},
-	{"ly-q50m5-target", hOpt(func(o *webp.EncoderOptions) { o.Quality, o.Method, o.TargetSize = 50, 5, 600 }), ClsPhoto, AlphaNone},
-	{"ly-q75m4-psnr", hOpt(func(o *webp.EncoderOptions) { o.TargetPSNR = 38 }), ClsGradient, AlphaNone},
-	{"ly-q90m4p2-alpha-raw", hOpt(func(o *webp.EncoderOptions) { o.Quality, o.Partitions, o.AlphaCompression = 90, 2, 0 }), ClsPal16, AlphaNoise},
-	{"ly-q75m1-qmin-qmax", hOpt(func(o *webp.EncoderOptions) { o.Method, o.QMin, o.QMax = 1, 20, 60 }), ClsPhoto, AlphaSemiFlat},
-	{"ll-q76m3-pal256", hOpt(func(o *webp.EncoderOptions) { o.Lossless, o.Quality, o.Method = true, 76, 3 }), ClsPal256, AlphaNone},
-	{"ll-q100m5-pal4-alpha", hOpt(func(o *webp.EncoderOptions) { o.Lossless, o.Quality, o.Method = true, 100, 5 }), ClsPal4, AlphaFewLevels},
-	{"ll-q25m1", hOpt(func(o *webp.EncoderOptions) { o.Lossless, o.Quality, o.Method = true, 25, 1 }), ClsPhoto, AlphaNoise},
-	{"ll-q89m6-flat", hOpt(func(o *webp.EncoderOptions) { o.Lossless, o.Quality, o.Method = true, 89, 6 }), ClsFlat, AlphaGradient},
+	{"ly-q100m6", hOpt(func(o *webp.EncoderOptions) { o.Quality, o.Method = 100, 6 }), ClsNoise, AlphaNone, ""},
+	{"ly-q75m3-s3-sharp7", hOpt(func(o *webp.EncoderOptions) { o.Method, o.Segments, o.FilterSharpness = 3, 3, 7 }), ClsPhoto, AlphaNone, ""},
+	{"ly-q50m5-target", hOpt(func(o *webp.EncoderOptions) { o.Quality, o.Method, o.TargetSize = 50, 5, 600 }), ClsPhoto, AlphaNone, ""},
+	{"ly-q75m4-psnr", hOpt(func(o *webp.EncoderOptions) { o.TargetPSNR = 38 }), ClsGradient, AlphaNone, ""},
+	{"ly-q90m4p2-alpha-raw", hOpt(func(o *webp.EncoderOptions) { o.Quality, o.Partitions, o.AlphaCompression = 90, 2, 0 }), ClsPal16, AlphaNoise, ""},
+	{"ly-q75m1-qmin-qmax", hOpt(func(o *webp.EncoderOptions) { o.Method, o.QMin, o.QMax = 1, 20, 60 }), ClsPhoto, AlphaSemiFlat, ""},
+	{"ll-q76m3-pal256", hOpt(func(o *webp.EncoderOptions) { o.Lossless, o.Quality, o.Method = true, 76, 3 }), ClsPal256, AlphaNone, ""},
+	{"ll-q100m5-pal4-alpha", hOpt(func(o *webp.EncoderOptions) { o.Lossless, o.Quality, o.Method = true, 100, 5 }), ClsPal4, AlphaFewLevels, ""},
+	{"ll-q25m1", hOpt(func(o *webp.EncoderOptions) { o.Lossless, o.Quality, o.Method = true, 25, 1 }), ClsPhoto, AlphaNoise, ""},
+	{"ll-q89m6-flat", hOpt(func(o *webp.EncoderOptions) { o.Lossless, o.Quality, o.Method = true, 89, 6 }), ClsFlat, AlphaGradient, ""},
+}
+
+// hImportConfigs: lossy encodes that take the SERIAL import path (RGB->YUV dithering, i.e.
+// Preprocessing&2, or an image type other than *image.NRGBA / *image.RGBA), every one in two
+// versions — a picture with alpha and its opaque twin — so that, walked over all ordered pairs on
+// one macroblock grid, a pooled encoder sees "alpha, then opaque" (and the reverse) on that path.
+var hImportConfigs = []hConfig{
+	{"ly-dither-alpha", hOpt(func(o *webp.EncoderOptions) { o.Preprocessing = 2 }), ClsPhoto, AlphaGradient, ""},
+	{"ly-dither-opaque", hOpt(func(o *webp.EncoderOptions) { o.Preprocessing = 2 }), ClsPhoto, AlphaNone, ""},
+	{"ly-generic-alpha", hOpt(func(o *webp.EncoderOptions) {}), ClsPhoto, AlphaNoise, "generic"},
+	{"ly-generic-opaque", hOpt(func(o *webp.EncoderOptions) {}), ClsPhoto, AlphaNone, "generic"},
+	{"ly-nrgba64-alpha", hOpt(func(o *webp.EncoderOptions) { o.Quality, o.Method = 90, 2 }), ClsNoise, AlphaGradient, "nrgba64"},
+	{"ly-nrgba64-opaque", hOpt(func(o *webp.EncoderOptions) { o.Quality, o.Method = 90, 2 }), ClsNoise, AlphaNone, "nrgba64"},
+	{"ly-paletted-alpha", hOpt(func(o *webp.EncoderOptions) { o.Quality = 60 }), ClsPal16, AlphaFewLevels, "paletted"},
+	{"ly-paletted-opaque", hOpt(func(o *webp.EncoderOptions) { o.Quality = 60 }), ClsPal16, AlphaNone, "paletted"},
+	{"ly-dither3-generic-alpha", hOpt(func(o *webp.EncoderOptions) { o.Preprocessing, o.Method = 3, 5 }), ClsGradient, AlphaSemiFlat, "generic"},
+	{"ly-dither3-generic-opaque", hOpt(func(o *webp.EncoderOptions) { o.Preprocessing, o.Method = 3, 5 }), ClsGradient, AlphaNone, "generic"},
 }
 
 // grids: two sizes each — equal macroblock count, larger-then-smaller, different shape
@@ -690,7 +745,7 @@ var hGrids = [][2][2]int{
 }
 
 func (cf *hConfig) enc(seed uint64, w, h int) *hcall {
-	return &hcall{Op: "enc", W: w, H: h, Cls: cf.cls, Acls: cf.acls, ISeed: seed*1000 + uint64(w*64+h), Opts: encOpts(cf.opts()), Tag: cf.tag}
+	return &hcall{Op: "enc", W: w, H: h, Cls: cf.cls, Acls: cf.acls, ISeed: seed*1000 + uint64(w*64+h), IType: cf.itype, Opts: encOpts(cf.opts()), Tag: cf.tag}
 }
 
 // ---------- walks ----------
@@ -863,6 +918,8 @@ func histClass(last *hcall, hist []*hcall, lines []string) string {
 			cls = "partitions"
 		case last.Acls != AlphaNone:
 			cls = "alpha"
+		case last.IType != "" || o.Preprocessing&2 != 0:
+			cls = "serial-import"
 		}
 	case "dec", "animdec", "cfg":
 		for i, h := range hist {
@@ -1095,6 +1152,42 @@ func suiteHistory(rep *Report) error {
 		rep.CountN("walk:mixed", hr.walk("mixed", seq, budget, sigDone))
 	}
 
+	// B'. serial import path: per grid an Euler circuit through ALL ordered pairs of the
+	//     alpha/opaque twins (dithering, generic wrapper, NRGBA64, Paletted) × the grid's two sizes;
+	//     thorough: additionally all ordered triples
+	for gi, g := range hGrids {
+		var calls []*hcall
+		for ci := range hImportConfigs {
+			for _, sz := range g {
+				calls = append(calls, hImportConfigs[ci].enc(rep.Seed, sz[0], sz[1]))
+			}
+		}
+		if err := hr.prefetch(calls); err != nil {
+			return err
+		}
+		idx := eulerPairs(len(calls))
+		if thorough {
+			idx = append(idx, deBruijn3(len(calls))...)
+		}
+		seq := make([]*hcall, len(idx))
+		for i, k := range idx {
+			seq[i] = calls[k]
+		}
+		budget := 4 * time.Second
+		if thorough {
+			budget = 0
+		}
+		rep.CountN("walk:import-pairs", hr.walk(fmt.Sprintf("import-pairs-grid%d", gi), seq, budget, sigDone))
+		rep.CountN("import-pairs-covered", len(calls)*len(calls))
+		for _, c := range calls {
+			t := c.IType
+			if t == "" {
+				t = "nrgba+dither"
+			}
+			rep.Count("import-type:" + t)
+		}
+	}
+
 	if !thorough {
 		// C'. all ordered triples of the 14 quick configurations (sizes of grid 0, alternating)
 		var calls []*hcall
@@ -1171,7 +1264,7 @@ func suiteHistory(rep *Report) error {
 		rep.CountN("random-histories", nh)
 	}
 
-	rep.Rule = "calls are webp.Encode (24 option sets over quality/method/segments/partitions/SNS/filter/alpha/sharp/target, lossy and lossless) on generator images of sizes sharing a macroblock grid, larger-then-smaller and of different shape, webp.Decode/DecodeConfig/GetFeatures of the fresh outputs (intact and with a truncated image chunk), animation encode/decode and remux; every call of every walk (all ordered pairs per grid; thorough: all ordered triples and 20000 random histories ≤ 12) is compared with the same call run first in a fresh process, and earlier results are re-hashed after every call. Distinct = distinct (walk, call, two predecessors) contexts."
+	rep.Rule = "calls are webp.Encode (24 option sets over quality/method/segments/partitions/SNS/filter/alpha/sharp/target, lossy and lossless) on generator images of sizes sharing a macroblock grid, larger-then-smaller and of different shape, webp.Decode/DecodeConfig/GetFeatures of the fresh outputs (intact and with a truncated image chunk), animation encode/decode and remux; lossy encodes on the serial import path (RGB->YUV dithering; image types generic wrapper, NRGBA64, Paletted) as alpha/opaque twins, all ordered pairs per macroblock grid; every call of every walk (all ordered pairs per grid; thorough: all ordered triples and 20000 random histories ≤ 12) is compared with the same call run first in a fresh process, and earlier results are re-hashed after every call. Distinct = distinct (walk, call, two predecessors) contexts."
 	rep.Sample(map[string]any{"walk": "pairs-enc-grid0", "first_calls": []string{hConfigs[0].enc(rep.Seed, 32, 32).short(), hConfigs[1].enc(rep.Seed, 30, 31).short()}})
 	rep.Extra["reference_processes"] = hr.child
 	rep.Extra["shrink_s"] = hr.shrinkSpent.Seconds()
